@@ -124,9 +124,13 @@ func runSched(c *cli.Ctx, r *emit.Rng) error {
 							var m prometheus.Metric
 							var err error
 							if q.form == 0 {
-								m, err = vec.GetMetricWithLabelValues(q.t...)
+								b := scratchLVs(q.t)
+								m, err = vec.GetMetricWithLabelValues(b...)
+								scribbleLVs(b)
 							} else {
-								m, err = vec.GetMetricWith(labelsOf(names, q.t))
+								l := labelsOf(names, q.t)
+								m, err = vec.GetMetricWith(l)
+								scribbleLabels(l)
 							}
 							if err != nil {
 								out = emit.C(1, emit.I(classify(err.Error())), emit.B(false))
@@ -135,9 +139,13 @@ func runSched(c *cli.Ctx, r *emit.Rng) error {
 							}
 						case 1:
 							if q.form == 0 {
-								out = emit.C(2, emit.B(vec.DeleteLabelValues(q.t...)))
+								b := scratchLVs(q.t)
+								out = emit.C(2, emit.B(vec.DeleteLabelValues(b...)))
+								scribbleLVs(b)
 							} else {
-								out = emit.C(2, emit.B(vec.Delete(labelsOf(names, q.t))))
+								l := labelsOf(names, q.t)
+								out = emit.C(2, emit.B(vec.Delete(l)))
+								scribbleLabels(l)
 							}
 						case 2:
 							out = emit.C(3, emit.I(vec.DeletePartialMatch(q.ls)))
